@@ -425,10 +425,31 @@ def main():
         if not isinstance(e, (mirror.Undecided, desugar.DesugarMismatch, rlex.LexError)):
             import traceback
             traceback.print_exc()
-        print('UNDECIDED property=%s extraction/tooling: %s: %s' % (pid, type(e).__name__, e))
+        reason = '%s: %s' % (type(e).__name__, e)
         ev['coverage'] = {'obligations': 0, 'discharged': 0, 'checker_cmd': 'n/a', 'trusted_base': [],
                           'explanation': 'extraction undecided: %s' % e, 'evaluations': 1, 'distinct_nontrivial': 0}
         rc = 2
+        w = None
+        if isinstance(e, (mirror.Undecided, desugar.DesugarMismatch, rlex.LexError)):
+            # the source left the verified subset: never an alarm by itself; a concrete failing input found on the
+            # real code is one
+            w = undecided_witness(pid, cfg, [reason], seed, work, units)
+        if w:
+            ev['violations'] = 1
+            ev['coverage']['decided_by'] = 'witness search on the real code (bounded), after extraction failed'
+            rdir = os.path.join(VERIF, 'replays') if 'VERIF_NO_EVIDENCE' not in os.environ else os.path.join(work, 'replays')
+            os.makedirs(rdir, exist_ok=True)
+            h = hashlib.sha256(json.dumps([w.get('input'), w.get('driver')]).encode()).hexdigest()[:10]
+            rpath = os.path.join(rdir, '%s-%s.json' % (pid, h))
+            json.dump({'property': pid, 'failed_obligations': [
+                {'obligation': 'undischarged (extraction): %s' % reason[:300], 'clause': '', 'tags': [pid]}],
+                'witness': w}, open(rpath, 'w'), indent=1)
+            print('undischarged: %s' % reason[:300])
+            print('counterexample on the real code: %s  expected %s  actual %s' % (w.get('input'), w.get('expected'), w.get('actual')))
+            print('VIOLATION property=%s replay=%s' % (pid, rpath))
+            rc = 1
+        else:
+            print('UNDECIDED property=%s extraction/tooling: %s' % (pid, reason))
     finally:
         ev['wall_s'] = round(time.time() - t0, 2)
         # self-test runs against a scratch copy of the sources (VERIF_REPO_SRC) must not overwrite the evidence
@@ -441,6 +462,27 @@ def main():
         else:
             log('kept', work)
     sys.exit(rc)
+
+
+def undecided_witness(pid, cfg, all_undec, seed, work, units):
+    if os.environ.get('VERIF_NO_WITNESS'):
+        return None
+    mods = []
+    for u in all_undec:
+        for m in re.findall(r'(\w+)\.rs', u):
+            if m in cfg['modules'] and m not in mods:
+                mods.append(m)
+        for m in re.findall(r'function (\w+)::', u):
+            if m in cfg['modules'] and m not in mods:
+                mods.append(m)
+    if not mods:
+        mods = list(cfg['modules'])
+    try:
+        import witness
+        return witness.search_modules(pid, mods, seed, work, units)
+    except Exception as e:   # the witness search is best effort
+        log('witness search failed: %s' % e)
+        return None
 
 
 def decide(pid, cfg, tier, seed, units, work, ev):
@@ -560,10 +602,8 @@ def decide(pid, cfg, tier, seed, units, work, ev):
         'explanation': cfg.get('what', ''),
     }
     ev['assumptions'] = cfg.get('assumptions', []) + ['see coverage.trusted_base for the mechanical scan of assume_specification / external_body items']
-    if not fn_rows:
+    if not fn_rows and not all_undec:
         print('UNDECIDED property=%s no obligations generated' % pid)
-        for u in all_undec[:10]:
-            print('  ' + u[:500])
         return 2
     if mine:
         # known findings
@@ -602,7 +642,25 @@ def decide(pid, cfg, tier, seed, units, work, ev):
             print('VIOLATION property=%s replay=%s%s' % (pid, rpath, suffix))
             return 1
     if all_undec:
-        # undecided items only matter when they touch this property's modules: any front-end error does
+        # The verifier could not decide (typically: the code moved away from the annotated baseline and the front end
+        # rejects the mirror).  That is never an alarm by itself.  The witness search is run on the real code: a
+        # concrete failing input of a function carrying this property is a violation (replayed counterexample);
+        # finding none leaves the property undecided (exit 2).
+        w = undecided_witness(pid, cfg, all_undec, seed, work, units)
+        if w:
+            ev['violations'] = 1
+            ev['coverage']['decided_by'] = 'witness search on the real code (bounded), after the verifier could not decide'
+            rdir = os.path.join(VERIF, 'replays') if 'VERIF_NO_EVIDENCE' not in os.environ else os.path.join(work, 'replays')
+            os.makedirs(rdir, exist_ok=True)
+            h = hashlib.sha256(json.dumps([w.get('input'), w.get('driver')]).encode()).hexdigest()[:10]
+            rpath = os.path.join(rdir, '%s-%s.json' % (pid, h))
+            json.dump({'property': pid, 'failed_obligations': [
+                {'obligation': 'undischarged (verifier front end): %s' % u[:300], 'clause': '', 'tags': [pid]} for u in all_undec[:5]],
+                'witness': w}, open(rpath, 'w'), indent=1)
+            print('undischarged: %s' % all_undec[0][:300])
+            print('counterexample on the real code: %s  expected %s  actual %s' % (w.get('input'), w.get('expected'), w.get('actual')))
+            print('VIOLATION property=%s replay=%s' % (pid, rpath))
+            return 1
         print('UNDECIDED property=%s' % pid)
         for u in all_undec[:10]:
             print('  ' + u[:600])
